@@ -1561,6 +1561,9 @@ def N_to_bytes(ex, n, a):
 
 def N_from(ex, n, a):
     selfp, trait, m = parse_name(n)
+    # <HashMap<K, V> as From<[(K, V); N]>>::from / BTreeMap likewise: a map from an array of pairs (later duplicates overwrite)
+    if isinstance(a[0], VecV) and re.match(r'std::collections::(BTreeMap|HashMap|BTreeSet|HashSet)<', selfp or ''):
+        return collect_into(ex, IterV(iter(list(a[0].items))), selfp)
     mt = re.fullmatch(r'(u|i)(8|16|32|64|128|size)', selfp)
     if mt and isinstance(a[0], Num):
         return num_cast(a[0], 64 if mt.group(2) == 'size' else int(mt.group(2)), mt.group(1) == 'i')
